@@ -190,6 +190,10 @@ func runC02(c *core.Ctx) {
 	c.Rule("R7", "the sender's batch capacity is at least 1 whenever the queue exists (otherwise the drain loop never dequeues and spins)", 1)
 	runBatchCapacity(c, e, "R7")
 
+	// ---- R8 one release per ownership
+	c.Rule("R8", "the sender releases the flag once per ownership and never after handing the flag to a newly started sender", 1)
+	runReleaseOnce(c, e, "R8")
+
 	// ---- R5 census
 	for _, fn := range p.Funcs {
 		core.AllInstrs(fn, func(in ssa.Instruction) {
@@ -638,5 +642,157 @@ func runBatchCapacity(c *core.Ctx, e *ev, R string) {
 		c.Unk(R, "batch-capacity", "", "allocation of the sender's batch slice not found")
 	} else if !found {
 		c.OK(R, "batch-capacity", "", "no pre-allocated batch field")
+	}
+}
+
+// runReleaseOnce: ownership of the sender flag ends with one release. In the sender (its closures and the
+// functions it defers included):
+//
+//	(A) after a release, no second release is reachable unless the sender re-acquired the flag and kept it
+//	    (the success edge of an acquire test in the sender itself);
+//	(B) after the sender started another sender (Exec/go of the sender function after a successful acquire,
+//	    directly or through a helper) the flag belongs to that one: no release by this activation at all.
+//
+// A release in a deferred function counts at every normal return unless it is on the recover() != nil side only.
+// Without this, a stale release clears the flag under the feet of the running sender and the next write
+// starts a second one: two senders share the batch and the transport.
+func runReleaseOnce(c *core.Ctx, e *ev, R string) {
+	p, S := c.P, e.r.Sender
+	relQ := &core.Query{P: p, MaxDepth: 2, Pred: e.runningRelease}
+	startQ := &core.Query{P: p, MaxDepth: 2, Pred: e.startsSender}
+	// does a deferred function of S release on the normal (non-panic) path?
+	deferredRelease := false
+	var deferredWhere ssa.Instruction
+	core.AllInstrs(S, func(in ssa.Instruction) {
+		df, ok := in.(*ssa.Defer)
+		if !ok {
+			return
+		}
+		var d *ssa.Function
+		if f := df.Call.StaticCallee(); f != nil {
+			d = f
+		} else if f := core.FuncValue(df.Call.Value, nil); f != nil {
+			d = f
+		}
+		if d == nil || d.Blocks == nil {
+			return
+		}
+		d = unbound(d)
+		// recover() results and the edges on which they are non-nil
+		panicOnly := map[*ssa.BasicBlock]bool{}
+		for _, f := range core.WithAnon(d) {
+			for _, ifi := range core.Ifs(f) {
+				cd := core.CondOf(ifi)
+				if cd.Op != token.NEQ && cd.Op != token.EQL {
+					continue
+				}
+				isRec := func(v ssa.Value) bool {
+					call, ok := core.Unwrap(v).(*ssa.Call)
+					if !ok {
+						return false
+					}
+					b, ok := call.Call.Value.(*ssa.Builtin)
+					return ok && b.Name() == "recover"
+				}
+				var other ssa.Value
+				if isRec(cd.X) {
+					other = cd.Y
+				} else if isRec(cd.Y) {
+					other = cd.X
+				}
+				if other == nil || !core.IsNilConst(other) {
+					continue
+				}
+				side := cd.True
+				if cd.Op == token.EQL {
+					side = cd.False
+				}
+				for _, b := range f.Blocks {
+					if core.EdgeDominates(ifi.Block(), side, b) {
+						panicOnly[b] = true
+					}
+				}
+			}
+		}
+		for _, f := range core.WithAnon(d) {
+			core.AllInstrs(f, func(x ssa.Instruction) {
+				if relQ.InstrMay(x, nil) && !panicOnly[x.Block()] {
+					deferredRelease, deferredWhere = true, x
+				}
+			})
+		}
+	})
+	isRel := func(x ssa.Instruction) bool {
+		switch x.(type) {
+		case *ssa.Defer, *ssa.Go:
+			return false // runs later: accounted for at the returns / not part of this activation
+		}
+		return relQ.InstrMay(x, nil)
+	}
+	isEnd := func(x ssa.Instruction) bool {
+		if isRel(x) {
+			return true
+		}
+		return deferredRelease && core.IsNormalReturn(x)
+	}
+	// acquire tests in S whose success side keeps the flag (does not start another sender)
+	keeps := map[edgeKey]bool{}
+	for _, f := range core.WithAnon(S) {
+		for _, ifi := range core.Ifs(f) {
+			cd := core.CondOf(ifi)
+			if cd.Op != token.ILLEGAL || !e.isAcquireValue(cd.X) {
+				continue
+			}
+			t, _ := core.Search(nil, cd.True, func(x ssa.Instruction) core.Action {
+				if startQ.InstrMay(x, nil) {
+					return core.Target
+				}
+				if isRel(x) {
+					return core.Barrier
+				}
+				return core.Continue
+			}, nil)
+			if t == nil {
+				keeps[edgeKey{ifi.Block(), cd.True}] = true
+			}
+		}
+	}
+	n := 0
+	for _, f := range core.WithAnon(S) {
+		if core.EnclosingFunc(f) != nil && f != S {
+			continue // deferred / nested functions are accounted for at the returns of S
+		}
+		core.AllInstrs(f, func(in ssa.Instruction) {
+			switch {
+			case isRel(in):
+				n++
+				c.Instance(R)
+				t, path := core.Search(in, nil, func(x ssa.Instruction) core.Action {
+					if isEnd(x) {
+						return core.Target
+					}
+					return core.Continue
+				}, func(a, b *ssa.BasicBlock) bool { return !keeps[edgeKey{a, b}] })
+				why := "after releasing the flag the sender can release it again without having re-acquired it"
+				if t != nil && core.IsNormalReturn(t) && deferredWhere != nil {
+					why += " (the deferred release at " + p.InstrPos(deferredWhere) + " runs at this return)"
+				}
+				c.Check(t == nil, R, "release-once/"+core.FName(f), p.InstrPos(in), "no second release without a retained re-acquire", why+": it clears the flag of whichever sender owns it by then, and the next write starts a second sender", p.PathString(path, t)...)
+			case startQ.InstrMay(in, nil):
+				n++
+				c.Instance(R)
+				t, path := core.Search(in, nil, func(x ssa.Instruction) core.Action {
+					if isEnd(x) {
+						return core.Target
+					}
+					return core.Continue
+				}, nil)
+				c.Check(t == nil, R, "no-release-after-handover/"+core.FName(f), p.InstrPos(in), "the sender does not release after starting its successor", "the sender starts another sender and releases the flag afterwards: the flag it clears belongs to the new sender (two senders run at once)", p.PathString(path, t)...)
+			}
+		})
+	}
+	if n == 0 {
+		c.Instance(R)
+		c.Unk(R, "release-once", p.Pos(S.Pos()), "the sender never releases the flag (protocol not recognised)")
 	}
 }
